@@ -21,6 +21,9 @@ EXPLANATION = (
     "the coroutine flag, choose the engine, start it - and callbacks are validated only once every provider is attached. "
     "Deep independence of user models/listeners is Python's copy protocol and not decided."
 )
+EXPLANATION += (
+    " " + '(attach) the machine records in which pass each listener was attached (constructor pass vs. each later add_listener) and the restore replays those passes in order: equal-priority callbacks run in attachment order, so one kind of pass for all saved listeners reproduces only one of the two histories.'
+)
 ASSUMPTIONS = ["copy/pickle call __getstate__/__setstate__ as documented"]
 TRUSTED = ["/verif/sa path enumerator"]
 
